@@ -18,30 +18,25 @@ Utf8Len(cps) == FoldLeft(LAMBDA acc, c : acc + (IF c < 128 THEN 1 ELSE IF c < 20
 
 IsCont(b) == b >= 128 /\ b <= 191
 
-\* strict decoder: [ok |-> BOOLEAN, cps |-> ...]; rejects overlong forms, surrogates, > U+10FFFF, truncation
-RECURSIVE Utf8DecFrom(_, _, _)
-Utf8DecFrom(bs, i, acc) ==
-  IF i > Len(bs) THEN [ok |-> TRUE, cps |-> acc]
-  ELSE LET b == bs[i]
-           n == Len(bs)
-           bad == [ok |-> FALSE, cps |-> acc]
-       IN IF b < 128 THEN Utf8DecFrom(bs, i + 1, Append(acc, b))
-          ELSE IF b >= 194 /\ b <= 223 THEN
-               IF i + 1 <= n /\ IsCont(bs[i+1])
-               THEN Utf8DecFrom(bs, i + 2, Append(acc, (b - 192) * 64 + (bs[i+1] - 128)))
-               ELSE bad
-          ELSE IF b >= 224 /\ b <= 239 THEN
-               IF i + 2 <= n /\ IsCont(bs[i+1]) /\ IsCont(bs[i+2])
-               THEN LET c == (b - 224) * 4096 + (bs[i+1] - 128) * 64 + (bs[i+2] - 128) IN
-                    IF c >= 2048 /\ IsScalar(c) THEN Utf8DecFrom(bs, i + 3, Append(acc, c)) ELSE bad
-               ELSE bad
-          ELSE IF b >= 240 /\ b <= 244 THEN
-               IF i + 3 <= n /\ IsCont(bs[i+1]) /\ IsCont(bs[i+2]) /\ IsCont(bs[i+3])
-               THEN LET c == (b - 240) * 262144 + (bs[i+1] - 128) * 4096 + (bs[i+2] - 128) * 64 + (bs[i+3] - 128) IN
-                    IF c >= 65536 /\ c <= 1114111 THEN Utf8DecFrom(bs, i + 4, Append(acc, c)) ELSE bad
-               ELSE bad
-          ELSE bad
-Utf8Dec(bs) == Utf8DecFrom(bs, 1, <<>>)
+\* strict decoder: [ok |-> BOOLEAN, cps |-> ...]; rejects overlong forms, surrogates, > U+10FFFF, truncation.
+\* Written as a fold over the bytes (a small state machine), so that long strings need no deep recursion.
+\* state: need = continuation bytes still expected, acc = value so far, lo = smallest legal value of this form
+Utf8Step(st, b) ==
+  IF ~st.ok THEN st
+  ELSE IF st.need = 0 THEN
+       IF b < 128 THEN [st EXCEPT !.cps = Append(@, b)]
+       ELSE IF b >= 194 /\ b <= 223 THEN [st EXCEPT !.need = 1, !.acc = b - 192, !.lo = 128]
+       ELSE IF b >= 224 /\ b <= 239 THEN [st EXCEPT !.need = 2, !.acc = b - 224, !.lo = 2048]
+       ELSE IF b >= 240 /\ b <= 244 THEN [st EXCEPT !.need = 3, !.acc = b - 240, !.lo = 65536]
+       ELSE [st EXCEPT !.ok = FALSE]
+  ELSE IF ~IsCont(b) THEN [st EXCEPT !.ok = FALSE]
+  ELSE LET c == st.acc * 64 + (b - 128) IN
+       IF st.need > 1 THEN [st EXCEPT !.need = @ - 1, !.acc = c]
+       ELSE IF c >= st.lo /\ IsScalar(c) THEN [st EXCEPT !.need = 0, !.acc = 0, !.cps = Append(@, c)]
+       ELSE [st EXCEPT !.ok = FALSE]
+Utf8Dec(bs) ==
+  LET r == FoldLeft(Utf8Step, [ok |-> TRUE, need |-> 0, acc |-> 0, lo |-> 0, cps |-> <<>>], bs)
+  IN [ok |-> r.ok /\ r.need = 0, cps |-> r.cps]
 
 \* ISO-8859-1: byte value = code point
 Latin1OfBytes(bs) == bs
